@@ -7,7 +7,8 @@ META = dict(
                 "(thorough) over CID aliases, identity CIDs and the empty block, in all 8 WriteThrough/NoPrefix/IdStore "
                 "configurations, plus every single call (quick) / pair of calls (thorough) over all CID variants (v0, v1-raw, "
                 "v1-dag-pb, identity raw/dag-pb; sha2-256 and sha2-512 digests) of a block universe whose lengths straddle the "
-                "framing boundaries (0, 1, 127|128, 255|256, 16383|16384), is replayed into the real blockstore with a full "
+                "framing boundaries (0, 1, 127|128, 255|256, 16383|16384), and every call in every kind of store the identity "
+                "store may wrap (with/without the optional Viewer and AllKeysChanWithErrer capabilities, cached), is replayed into the real blockstore with a full "
                 "query battery (found + delivered length + byte values) and raw-datastore inspection after each step; random 200-400 step histories of the real code are validated as behaviours of the spec."),
     level_note="Trusted: go-datastore MapDatastore, go-multihash; honest blocks (bytes are a function of the multihash); projection = harness name table; the universe (CID table, lengths, hash functions, multihash framing) is printed by the spec and cross-checked against the real multihashes.",
     technique="TLA+ map model; TLC BFS/simulation-generated behaviours replayed into the code; recorded traces validated by TLC (TraceBlockstore)",
@@ -21,7 +22,8 @@ def run(ctx):
                        "simulated long sequences; after every step the harness runs the full query battery "
                        "(Has/Get/GetSize/View per CID alias, AllKeysChan(+WithErr), raw datastore keys) and compares "
                        "with the model store and the spec's Size of the entry. U: every call over the wide boundary "
-                       "universe (8 blocks + 8 identity CIDs, all variants). T: random histories validated by TraceBlockstore. "
+                       "universe (8 blocks + 8 identity CIDs, all variants). K: every call in every inner-store kind of the "
+                       "identity store (plain / wrappers with each subset of Viewer, AllKeysChanWithErrer / cached). T: random histories validated by TraceBlockstore. "
                        "non-trivial = behaviour whose model store changed at least twice (U family: at least once)")
     # M
     ctx.tlc_mc("Blockstore", "Blockstore.tla", "MCBlockstore.cfg", timeout=300,
@@ -37,6 +39,21 @@ def run(ctx):
     # 16383|16384) and two digest lengths
     wide = ctx.tlc_gen("Blockstore", "GenBlockstore.tla",
                        "GenBlockstoreU.cfg" if ctx.quick else "GenBlockstoreU2.cfg", timeout=900)
+    # inner-store kinds: the identity store over every kind of wrapped store of the spec (plain, transparent
+    # wrappers exposing each subset of the optional capabilities Viewer/AllKeysChanWithErrer, CachedBlockstore
+    # with/without Bloom filter) x WriteThrough x NoPrefix, every single call (quick) / pair of calls (thorough)
+    # over all CID variants of a small universe, full battery (View included) after every step
+    kinds = ctx.tlc_gen("Blockstore", "GenBlockstore.tla",
+                        "GenBlockstoreK.cfg" if ctx.quick else "GenBlockstoreK2.cfg", timeout=900)
+    if not ctx.quick:   # thorough: U2 (pairs) runs over the plain store only, the single calls also over the cached one
+        wide1 = ctx.tlc_gen("Blockstore", "GenBlockstore.tla", "GenBlockstoreU.cfg", timeout=900)
+        # one universe record for both: U's (same blocks and CIDs, superset of inner kinds)
+        wide = wide1 + [b for b in wide if "univ" not in b]
+    seen_kinds = {b["cfg"]["inner"] for b in kinds if "cfg" in b and b["cfg"]["ids"]}
+    spec_kinds = {r["kind"] for b in kinds if "univ" in b for r in b["univ"]["inners"]}
+    if not spec_kinds or seen_kinds != spec_kinds:
+        ctx.broken("kinds family does not cover the spec's inner-store kinds: %s vs %s" % (sorted(seen_kinds), sorted(spec_kinds)))
+        return
     binp = ctx.go_build("blockstore", ["blockstore/zz_verif_C01_test.go"])
     def changed_twice(b):
         n, prev = 0, []
@@ -46,7 +63,8 @@ def run(ctx):
         return n >= 2
     def changed_once_wide(b):   # depth-1 family: the call changed the store
         return any(st["store"] for st in b.get("steps", []))
-    for name, bl, nt in (("bfs", behs, changed_twice), ("sim", sims, changed_twice), ("wide", wide, changed_once_wide)):
+    for name, bl, nt in (("bfs", behs, changed_twice), ("sim", sims, changed_twice), ("wide", wide, changed_once_wide),
+                         ("kinds", kinds, changed_once_wide)):
         us = [b for b in bl if "univ" in b]
         if len(us) != 1:
             ctx.broken("generator %s printed %d universe records, expected exactly 1" % (name, len(us)))
